@@ -8,7 +8,8 @@
     of v."
 
    Models: Lexer/LexerModel.v (the lexer, over the pure stream), Expr/LiteralModel.v (strconv.ParseInt/ParseUint,
-   parseNumber, parseUnaryMinus, array/tuple literal parsing, FormatLiteral & co., explainLiteral, explainUnaryExpr).
+   big.Int.SetString(s, 0), parseNumber, parseUnaryMinus, array/tuple literal parsing, FormatLiteral & co.,
+   explainLiteral, explainUnaryExpr).
    Specs: Lexer/LexerStringsSpec.v (quote, quote_raw, canon_string), Expr/LiteralSpec.v (src, toks, canon, wfb).
    Tie to /repo: harness/cmd/litdump vs driver/literal, checks/gen_literal_cases.py.
 
@@ -118,15 +119,43 @@ Theorem C09_out_of_int_negated : forall pf itf n, 9223372036854775808 < n -> n <
 Proof. exact out_of_int_negated. Qed.
 Print Assumptions C09_out_of_int_negated.
 
-Theorem C09_hex_by_value : forall pf itf n, n < 18446744073709551616 ->
-  literal_of_tokens pf itf [(T_NUMBER, [48; 120] ++ hex n)] = LOk (OLit (t_UInt64 ++ dec n)).
+(* hex and binary (and octal) integer literals by value, for EVERY n: UInt64_n below 2^64, from there on the float64
+   nearest to n (big.Int.SetString -> big.Float -> float64; the first version of the code printed binary and octal
+   literals >= 2^64 as STRING literals) *)
+Theorem C09_hex_by_value : forall pf itf n,
+  literal_of_tokens pf itf [(T_NUMBER, [48; 120] ++ hex n)] =
+  LOk (OLit (if n <? 18446744073709551616 then t_UInt64 ++ dec n else t_Float64 ++ format_float (itf n))).
 Proof. exact hex_literal. Qed.
 Print Assumptions C09_hex_by_value.
 
-Theorem C09_bin_by_value : forall pf itf n, n < 18446744073709551616 ->
-  literal_of_tokens pf itf [(T_NUMBER, [48; 98] ++ bin n)] = LOk (OLit (t_UInt64 ++ dec n)).
+Theorem C09_bin_by_value : forall pf itf n,
+  literal_of_tokens pf itf [(T_NUMBER, [48; 98] ++ bin n)] =
+  LOk (OLit (if n <? 18446744073709551616 then t_UInt64 ++ dec n else t_Float64 ++ format_float (itf n))).
 Proof. exact bin_literal. Qed.
 Print Assumptions C09_bin_by_value.
+
+Theorem C09_oct_by_value : forall pf itf n,
+  literal_of_tokens pf itf [(T_NUMBER, [48; 111] ++ oct n)] =
+  LOk (OLit (if n <? 18446744073709551616 then t_UInt64 ++ dec n else t_Float64 ++ format_float (itf n))).
+Proof. exact oct_literal. Qed.
+Print Assumptions C09_oct_by_value.
+
+(* every other spelling of such a literal: 0x / 0b / 0o or 0X / 0B / 0O, digits in either letter case, leading zeros,
+   '_' separators (each directly followed by a digit; [rad_ok]) -- the value of the digits, separators skipped *)
+Theorem C09_radix_by_value : forall pf itf r up ds, rad_ok r ds = true ->
+  literal_of_tokens pf itf [(T_NUMBER, [48; radix_letter r up] ++ ds)] =
+  LOk (OLit (let n := rad_value r ds 0 in
+             if n <? 18446744073709551616 then t_UInt64 ++ dec n else t_Float64 ++ format_float (itf n))).
+Proof. exact radix_literal. Qed.
+Print Assumptions C09_radix_by_value.
+
+(* the plain numerals are instances: their digit strings are well formed and have the value n *)
+Theorem C09_numerals_well_formed : forall n,
+  (rad_ok RHex (hex n) = true /\ rad_value RHex (hex n) 0 = n) /\
+  (rad_ok RBin (bin n) = true /\ rad_value RBin (bin n) 0 = n) /\
+  (rad_ok ROct (oct n) = true /\ rad_value ROct (oct n) 0 = n).
+Proof. exact (fun n => conj (hex_rad n) (conj (bin_rad n) (oct_rad n))). Qed.
+Print Assumptions C09_numerals_well_formed.
 
 (* ---------------------------------------------------------------------------------------------------------- *)
 (* floats: format.go's FormatFloat on (digits, exponent) is the canonical layout — every digit string, every
@@ -139,8 +168,8 @@ Print Assumptions C09_float_layout.
 (* ---------------------------------------------------------------------------------------------------------- *)
 (* everything together, any nesting depth *)
 
-(* token level: every well-formed literal tree (integers of any size and spelling, negations, float texts, strings,
-   arrays, tuples) renders as its canonical text *)
+(* token level: every well-formed literal tree (integers of any size in decimal, hex, binary and every prefixed
+   spelling, negations, float texts, strings, arrays, tuples) renders as its canonical text *)
 Theorem C09_literals_tokens :
   forall (pf : list N -> option fval) (itf : N -> fval),
     (forall s f, pf s = Some f -> fval_ok f) ->
@@ -189,15 +218,7 @@ Proof. exact literal_of_tokens_total. Qed.
 Print Assumptions C09_model_total.
 
 (* ---------------------------------------------------------------------------------------------------------- *)
-(* where the faithful model contradicts the property text (findings, see the report of the check) *)
-
-
-(* a binary literal >= 2^64 (0b1 and 64 zeros) is printed as a STRING literal *)
-Theorem C09_big_binary_refuted :
-  literal_of_tokens w_parse_float w_int_to_float (toks (CBin 18446744073709551616))
-  = LOk (OLit (format_string ([48; 98] ++ bin 18446744073709551616))).
-Proof. exact bin_big_refuted. Qed.
-Print Assumptions C09_big_binary_refuted.
+(* where the faithful model contradicts the property text (see the report of the check: outside the quantifier) *)
 
 (* a decimal literal that strconv.ParseFloat rejects (1e999) is printed as a STRING literal *)
 Theorem C09_float_range_refuted :
@@ -261,6 +282,25 @@ Example ex_tree_render :
   literal_of_source w_parse_float w_int_to_float (src ex_tree) = LOk (OLit (canon w_parse_float w_int_to_float ex_tree)) /\
   literal_of_source w_parse_float w_int_to_float (src ex_tree2) = LOk (OLit (canon w_parse_float w_int_to_float ex_tree2)).
 Proof. vm_compute. split; reflexivity. Qed.
+
+(* 0b1 and 64 zeros, 0o2 and 21 zeros, 0X1_0000_0000_0000_0000 from source bytes, with an oracle that knows the float
+   nearest to 2^64: Float64_18446744073709552000 (a STRING literal in the first version of the code) *)
+Definition ex_big_text : list N :=
+  t_Float64 ++ [49; 56; 52; 52; 54; 55; 52; 52; 48; 55; 51; 55; 48; 57; 53; 53; 50; 48; 48; 48].
+Definition ex_big_hex_us : cval :=
+  CRad RHex true [49; 95; 48; 48; 48; 48; 95; 48; 48; 48; 48; 95; 48; 48; 48; 48; 95; 48; 48; 48; 48].
+Example ex_big_radix :
+  literal_of_source ex_pf ex_itf (src (CBin 18446744073709551616)) = LOk (OLit ex_big_text) /\
+  literal_of_source ex_pf ex_itf (src (CRad ROct false (oct 18446744073709551616))) = LOk (OLit ex_big_text) /\
+  literal_of_source ex_pf ex_itf (src ex_big_hex_us) = LOk (OLit ex_big_text) /\
+  literal_of_source ex_pf ex_itf (src (CArr [ex_big_hex_us; CRad RBin true [49; 95; 48; 49]])) =
+    LOk (OLit (s_Array ++ ex_big_text ++ s_comma_sp ++ s_UInt64 ++ [53] ++ [93])).
+Proof. vm_compute. repeat split; reflexivity. Qed.
+Example ex_big_radix_wf :
+  wfb ex_pf (CArr [ex_big_hex_us; CRad RBin true [49; 95; 48; 49]]) = true /\
+  lexable (CArr [ex_big_hex_us; CRad RBin true [49; 95; 48; 49]]) = true /\
+  src ex_big_hex_us = [48; 88; 49; 95; 48; 48; 48; 48; 95; 48; 48; 48; 48; 95; 48; 48; 48; 48; 95; 48; 48; 48; 48].
+Proof. vm_compute. repeat split; reflexivity. Qed.
 
 (* the three premises about the oracle are satisfiable together: an oracle that knows the float nearest to 2^64
    (and answers 1 elsewhere), with ParseFloat defined through the integer conversion *)
